@@ -527,7 +527,9 @@ FixedPointChecks(r) ==
                         D == lam.shape[Len(lam.shape)]
                         lmax == Get(lam, leads[i] \o <<k, D - 1>>)       \* eigenvalues sorted ascending by the encoder
                     IN  FLe(FMul(FMul(FSub(FOne, FPDelta), lmax), PNorm2(r, leads[i], k)), QuadField(r, "cacg_covariance", leads[i], k))>> >> ELSE <<>>)
-          \o (IF DHas(r, "watson_mode_outer") THEN << <<"watson_mode_direction",
+          \* (after fewer than 5 iterations from a start blurred beyond 0.45 the mode is still pulled towards the other
+          \* prototypes: the direction is claimed from then on, the maximum-posterior class always)
+          \o (IF DHas(r, "watson_mode_outer") /\ r.dstrict THEN << <<"watson_mode_direction",
                  \A i \in 1..Len(leads) : \A k \in 0..(KOf(r) - 1) :
                     FLe(FMul(FSub(FOne, FPDelta), PNorm2(r, leads[i], k)), QuadField(r, "watson_mode_outer", leads[i], k))>> >> ELSE <<>>)
           \o (IF DHas(r, "bingham_covariance") THEN << <<"bingham_mode_direction",
